@@ -72,6 +72,7 @@ struct PipeCfg
 {
   int T = 4;
   int chunk = 0; // bytes; 0 = leave the build's default
+  int refill = 0; // hash file-buffer refill size in 64-byte units; 0 = leave the build's default
   SchedSpec sched;
   int outbuf = 0; // stdio buffering of the output stream: 0 default, 1 unbuffered, 2 64-byte buffer
   bool want_events = false;
@@ -106,6 +107,8 @@ RecOut run_recorder(const bytes &input, bool ispadding, const PipeCfg &pc);
 
 // ---- pure functions ----
 bytes hash_string(int alg, const bytes &m);
+// the same hasher object first digests `decoy`, then `m` (the object must reset itself between messages)
+bytes hash_string_reuse(int alg, const bytes &decoy, const bytes &m);
 // through filebuffer64 on a memory file positioned at `pos`, optionally with a 64-byte prefix block
 bytes hash_filebuf(int alg, const bytes &file, size_t pos, int refill_units, const bytes *prefix64);
 // synthetic stream of `len` bytes (byte i = pattern(i)) through a buffer64 subclass, no file involved
